@@ -3,6 +3,8 @@ import SnaxVerif.Lemmas.PhsHistory
 names are distinct) that compute the function of the `linalg.generic` body. Core Lean only. -/
 namespace SnaxVerif.Phs
 
+variable [Variant]
+
 theorem encodeNodes_spec (b : KBody) : ∀ (ops : List KOp) (j : Nat) (seen : List String) (ns : List Node),
     encodeNodes b ops j seen = .ok ns → ns.length = ops.length ∧
     ∀ (k : Nat) (o : KOp), ops[k]? = some o → ∃ n : Node, ns[k]? = some n ∧ n.ops = [o.name] ∧
